@@ -32,7 +32,7 @@ import (
 	"verif/internal/racefilter"
 )
 
-const rule = "case = (program with 1-4 sinks over overlapping kind patterns, 2-16 workers, a batch of events with payload {id, loops, fail} fired from concurrent goroutines, optionally each through a cascading relay sink); non-trivial = at least two invocations of the same sink overlapped in time (start/finish stamps taken by the harness's Go function inside the sink bodies); distinct by (program, batch); in -race builds every case is additionally judged by the race detector (both access sites in interpreter/ or scope/)"
+const rule = "case = (program with 1-4 sinks over overlapping kind patterns, 2-16 workers, a batch of events with payload {id, loops, fail} fired from concurrent goroutines, optionally each through a cascading relay sink); non-trivial = at least two invocations of the same sink overlapped in time (start/finish stamps taken by the harness's Go function inside the sink bodies); distinct by (program, batch); in -race builds every case is additionally judged by the race detector (both access sites in interpreter/, scope/ or engine/ without engine/pool)"
 
 // Sink is one sink of the program.
 type Sink struct {
@@ -42,6 +42,7 @@ type Sink struct {
 	Interp   bool   `json:"interp"` // interpolates a string from its locals
 	Mutex    bool   `json:"mutex"`  // updates a global inside a mutex block
 	Nested   bool   `json:"nested"` // computes inside an if/for nest with block-local lets
+	Bag      bool   `json:"bag"`    // evaluates a bag of other constructs (like with a run-time pattern, membership, literals, closure, try/except, arithmetic) whose values follow from the event id
 }
 
 // Ev is one event of the batch.
@@ -57,6 +58,7 @@ type Case struct {
 	Events  []Ev   `json:"events"`
 	Workers int    `json:"workers"`
 	Relay   bool   `json:"relay"`  // events are sent to a relay sink which re-adds them with addEvent (cascade)
+	Fan     int    `json:"fan,omitempty"` // > 1: events are sent in groups of this size to a fan-out sink which adds them as child events of ONE cascade (same root monitor)
 	Feeders int    `json:"feeders"`
 }
 
@@ -108,6 +110,13 @@ func program(c Case) string {
 		if s.Mutex {
 			b.WriteString("    mutex m {\n        total := total + 1\n    }\n")
 		}
+		if s.Bag {
+			b.WriteString("    let pat := \"^ev{{id}}$\"\n    let lk := event.name like pat\n    let lk2 := \"x{{id}}y\" like \"^x[0-9]+y$\"\n    let hp := event.name hasPrefix \"ev\"\n")
+			b.WriteString("    let inl := id in [id - 1, id, id + 1]\n    let ni := id notin [0 - 1, 0 - 2]\n    let lst := [id, [id * 2], {\"k\" : id}]\n    let mp := {\"a\" : id, id : \"n\"}\n")
+			b.WriteString("    let cl := func (q) {\n        return q + id\n    }\n    let r1 := cl(1)\n    let tr := 0\n    try {\n        raise(\"B{{id}}\", \"x\", id)\n    } except \"B{{id}}\" as e {\n        tr := e.data\n    }\n")
+			b.WriteString("    let cmp := id > 0 and id < 1000000 and not (id == 0)\n    let ar := (id * 3 - id) / 2 + id % 7 + id // 2\n")
+			fmt.Fprintf(&b, "    t.rec([\"bag\", \"%s\", id, lk, lk2, hp, inl, ni, lst[1][0], mp.a, mp[id], r1, tr, cmp, ar])\n", name)
+		}
 		fmt.Fprintf(&b, "    t.rec([\"echo\", \"%s\", id, acc, %s, %s, event.state.id, event.name])\n", name, h, sv)
 		fmt.Fprintf(&b, "    if event.state.fail == %d {\n        raise(\"T{{id}}\", \"d{{id}}-%s\", [id, \"%s\"])\n    }\n", i, name, name)
 		fmt.Fprintf(&b, "    t.rec([\"ok\", \"%s\", id])\n}\n", name)
@@ -115,10 +124,18 @@ func program(c Case) string {
 	if c.Relay {
 		b.WriteString("sink relay\n    kindmatch [ \"relay\" ]\n{\n    addEvent(event.name, event.state.kind, event.state.payload)\n}\n")
 	}
+	if c.Fan > 1 {
+		b.WriteString("sink fanout\n    kindmatch [ \"fan\" ]\n{\n")
+		for j := 1; j <= c.Fan; j++ {
+			fmt.Fprintf(&b, "    if event.state.n >= %d {\n        addEvent(event.state.c%d.name, event.state.c%d.kind, event.state.c%d.payload)\n    }\n", j, j, j, j)
+		}
+		b.WriteString("}\n")
+	}
 	return b.String()
 }
 
 type observed struct {
+	bag    map[string][]interface{} // sink -> bag record
 	echo   map[string][]interface{} // sink -> echo record
 	starts map[string]int
 	oks    map[string]int
@@ -166,9 +183,28 @@ func runCase(c Case) (fail *hx.Failure) {
 	results := make([]result, len(c.Events))
 	hx.WriteInflight(c) // a fatal runtime abort (concurrent map access) cannot be recovered
 	var wg sync.WaitGroup
-	next := make(chan int, len(c.Events))
-	for i := range c.Events {
-		next <- i
+	stateOf := func(i int) map[interface{}]interface{} {
+		ev := c.Events[i]
+		return map[interface{}]interface{}{"id": float64(i + 1), "loops": float64(ev.Loops), "fail": float64(ev.Fail)}
+	}
+	// work items: single events, or groups of Fan events sent as children of one cascade
+	var items [][]int
+	if c.Fan > 1 {
+		for i := 0; i < len(c.Events); i += c.Fan {
+			var g []int
+			for j := i; j < i+c.Fan && j < len(c.Events); j++ {
+				g = append(g, j)
+			}
+			items = append(items, g)
+		}
+	} else {
+		for i := range c.Events {
+			items = append(items, []int{i})
+		}
+	}
+	next := make(chan []int, len(items))
+	for _, it := range items {
+		next <- it
 	}
 	close(next)
 	feeders := c.Feeders
@@ -180,21 +216,31 @@ func runCase(c Case) (fail *hx.Failure) {
 		wg.Add(1)
 		go func() {
 			defer wg.Done()
-			for i := range next {
+			for it := range next {
+				i := it[0]
 				ev := c.Events[i]
-				state := map[interface{}]interface{}{"id": float64(i + 1), "loops": float64(ev.Loops), "fail": float64(ev.Fail)}
 				name := fmt.Sprintf("ev%d", i+1)
 				var e *engine.Event
-				if c.Relay {
-					e = engine.NewEvent(name, []string{"relay"}, map[interface{}]interface{}{"kind": ev.Kind, "payload": state})
-				} else {
-					e = engine.NewEvent(name, strings.Split(ev.Kind, "."), state)
+				switch {
+				case c.Fan > 1:
+					st := map[interface{}]interface{}{"n": float64(len(it))}
+					for k, j := range it {
+						st[fmt.Sprintf("c%d", k+1)] = map[interface{}]interface{}{"name": fmt.Sprintf("ev%d", j+1), "kind": c.Events[j].Kind, "payload": stateOf(j)}
+					}
+					e = engine.NewEvent(fmt.Sprintf("fan%d", i+1), []string{"fan"}, st)
+				case c.Relay:
+					e = engine.NewEvent(name, []string{"relay"}, map[interface{}]interface{}{"kind": ev.Kind, "payload": stateOf(i)})
+				default:
+					e = engine.NewEvent(name, strings.Split(ev.Kind, "."), stateOf(i))
 				}
 				rm := proc.NewRootMonitor(nil, nil)
 				m, err := proc.AddEventAndWait(e, rm)
 				r := result{err: err, nilM: m == nil}
 				if m != nil {
 					r.errs = rm.AllErrors()
+				}
+				for _, j := range it {
+					results[j] = result{err: r.err, nilM: r.nilM}
 				}
 				results[i] = r
 			}
@@ -222,7 +268,7 @@ func runCase(c Case) (fail *hx.Failure) {
 	get := func(id int) *observed {
 		o, ok := obs[id]
 		if !ok {
-			o = &observed{map[string][]interface{}{}, map[string]int{}, map[string]int{}}
+			o = &observed{map[string][]interface{}{}, map[string][]interface{}{}, map[string]int{}, map[string]int{}}
 			obs[id] = o
 		}
 		return o
@@ -230,8 +276,8 @@ func runCase(c Case) (fail *hx.Failure) {
 	type span struct{ start, end int }
 	spans := map[string][]span{} // sink -> invocation spans (positions in the global record order)
 	open := map[string]int{}
-	items := rec.Snapshot()
-	for pos, it := range items {
+	recorded := rec.Snapshot()
+	for pos, it := range recorded {
 		l, ok := it.([]interface{})
 		if !ok || len(l) < 3 {
 			return hx.Failf("record-shape", "unexpected observation %v", it)
@@ -255,9 +301,23 @@ func runCase(c Case) (fail *hx.Failure) {
 			o.echo[sink] = l
 		case "ok":
 			o.oks[sink]++
+		case "bag":
+			o.bag[sink] = l
 		}
 		if tag == "echo" { // the invocation is certainly still running here
 			spans[sink] = append(spans[sink], span{open[key], pos})
+		}
+	}
+
+	// the error reports, grouped by the id of the event each entry is attributed to
+	errsByID := map[int][]*engine.TaskError{}
+	for _, r := range results {
+		for _, te := range r.errs {
+			idv, ok := te.Event.State()["id"].(float64)
+			if !ok {
+				return hx.Failf("error-wrong-event", "an error report entry is attributed to event %v which carries no id", te.Event)
+			}
+			errsByID[int(idv)] = append(errsByID[int(idv)], te)
 		}
 	}
 
@@ -287,7 +347,7 @@ func runCase(c Case) (fail *hx.Failure) {
 				break
 			}
 		}
-		if len(triggered) == 0 && !c.Relay {
+		if len(triggered) == 0 && !c.Relay && c.Fan <= 1 {
 			if !r.nilM {
 				return hx.Failf("harness:untriggered-event-accepted", "event %d (%s)", id, ev.Kind)
 			}
@@ -326,6 +386,14 @@ func runCase(c Case) (fail *hx.Failure) {
 				return hx.Failf("local-corrupted", "event %d (%s) sink %s: echoed [acc=%v helper=%v interp=%v event.state.id=%v event.name=%v], the payload dictates [%v %v %v %v %v]",
 					id, ev.Kind, name, e[3], e[4], e[5], e[6], e[7], wantAcc, wantH, wantS, id, wantName)
 			}
+			if s.Bag {
+				bg, ok := o.bag[name]
+				fid := float64(id)
+				want := []interface{}{"bag", name, fid, true, true, true, true, true, fid * 2, fid, "n", fid + 1, fid, true, fid + float64(id%7) + float64(id/2)}
+				if !ok || fmt.Sprint(bg) != fmt.Sprint(want) {
+					return hx.Failf("local-corrupted:bag", "event %d (%s) sink %s: the bag of constructs evaluated to %v, the event id dictates %v", id, ev.Kind, name, bg, want)
+				}
+			}
 			if si == failing {
 				if o.oks[name] != 0 {
 					return hx.Failf("failing-invocation-continued", "event %d sink %s", id, name)
@@ -336,15 +404,12 @@ func runCase(c Case) (fail *hx.Failure) {
 		}
 		// the error report of this event
 		got := map[string]error{}
-		for _, te := range r.errs {
+		for _, te := range errsByID[id] {
 			for k, v := range te.ErrorMap {
 				if _, dup := got[k]; dup {
 					return hx.Failf("error-duplicated", "event %d: error of sink %s reported twice", id, k)
 				}
 				got[k] = v
-				if sid := te.Event.State()["id"]; !c.Relay && sid != float64(id) {
-					return hx.Failf("error-wrong-event", "event %d: its report holds an error attributed to event id %v", id, sid)
-				}
 			}
 		}
 		if failing < 0 {
@@ -388,11 +453,22 @@ func runCase(c Case) (fail *hx.Failure) {
 	// race detector (history invariant)
 	if tail != nil {
 		reports, _ := tail.Next()
-		in, foreign, unattr := racefilter.Split(reports, []string{"github.com/krotik/ecal/interpreter", "github.com/krotik/ecal/scope"}, racefilter.SkipRuntime)
+		in, foreign, unattr := racefilter.Split(reports, []string{"github.com/krotik/ecal/interpreter", "github.com/krotik/ecal/scope", "github.com/krotik/ecal/engine"}, racefilter.SkipRuntime)
+		// engine/pool has a known unlocked read in SetWorkerCount which is not about sink invocations: keep the pool out
+		var keep []racefilter.Report
+		for _, r := range in {
+			a, b, ok := r.Sites(racefilter.SkipRuntime)
+			if ok && (strings.HasSuffix(a.Pkg(), "engine/pool") || strings.HasSuffix(b.Pkg(), "engine/pool")) {
+				foreign = append(foreign, r)
+				continue
+			}
+			keep = append(keep, r)
+		}
+		in = keep
 		hx.E.Class("race.ignored-foreign", int64(len(foreign)))
 		hx.E.Class("race.unattributed", int64(len(unattr)))
 		if len(in) > 0 {
-			return hx.Failf(in[0].Sig(racefilter.SkipRuntime), "%d data race report(s) with both access sites in interpreter/ or scope/:\n%s", len(in), racefilter.Describe(in, 2))
+			return hx.Failf(in[0].Sig(racefilter.SkipRuntime), "%d data race report(s) with both access sites in interpreter/, scope/ or engine/ (bookkeeping of sink invocations):\n%s", len(in), racefilter.Describe(in, 2))
 		}
 	}
 
@@ -406,7 +482,7 @@ func runCase(c Case) (fail *hx.Failure) {
 			}
 		}
 	}
-	classes := []string{fmt.Sprintf("workers.%d", c.Workers), fmt.Sprintf("sinks.%d", len(c.Sinks)), fmt.Sprintf("relay.%v", c.Relay)}
+	classes := []string{fmt.Sprintf("workers.%d", c.Workers), fmt.Sprintf("sinks.%d", len(c.Sinks)), fmt.Sprintf("relay.%v", c.Relay), fmt.Sprintf("fan-out.%v", c.Fan > 1)}
 	if overlap {
 		classes = append(classes, "overlap.same-sink")
 	}
@@ -430,11 +506,14 @@ var kinds = []string{"k.a.b", "k.a.c", "k.c.b", "k.c.d"}
 func genCase(rt *rapid.T) Case {
 	pick := func(n int, l string) int { return rapid.IntRange(0, n-1).Draw(rt, l) }
 	c := Case{Workers: []int{2, 3, 4, 8, 16}[pick(5, "workers")], Relay: pick(4, "relay") == 0, Feeders: 2 + pick(15, "feeders")}
+	if !c.Relay && pick(3, "fan") == 0 {
+		c.Fan = 2 + pick(7, "fann")
+	}
 	ns := 1 + pick(4, "nsinks")
 	prios := rapid.Permutation([]int{0, 1, 2, 3}).Draw(rt, "prios")
 	for i := 0; i < ns; i++ {
 		c.Sinks = append(c.Sinks, Sink{Pattern: patterns[pick(len(patterns), "pat")], Priority: prios[i],
-			Helper: pick(2, "helper") == 0, Interp: pick(2, "interp") == 0, Mutex: pick(2, "mutex") == 0, Nested: pick(2, "nested") == 0})
+			Helper: pick(2, "helper") == 0, Interp: pick(2, "interp") == 0, Mutex: pick(2, "mutex") == 0, Nested: pick(2, "nested") == 0, Bag: pick(2, "bag") == 0})
 	}
 	c.Sinks[0].Pattern = []string{"k.*.*", "k.a.*"}[pick(2, "pat0")] // most events trigger at least one sink
 	ne := 50 + pick(8, "ne")*50
